@@ -26,7 +26,7 @@ func codeRange(t *sim.Tape, n int) (string, string) {
 
 // GenCMapOne draws the text of one CMap resource (without the surrounding
 // findresource begin ... end end).
-func genCMapBody(t *sim.Tape, name string, sb *strings.Builder) {
+func genCMapBody(t *sim.Tape, name string, sb *strings.Builder, others []string) {
 	ws := func() string {
 		return []string{"\n", " ", "\n\n", "\r\n", " % c\n", "\t"}[t.Weighted(8, 3, 1, 1, 1, 1)]
 	}
@@ -36,7 +36,13 @@ func genCMapBody(t *sim.Tape, name string, sb *strings.Builder) {
 	if t.Bool(1, 2) {
 		fmt.Fprintf(sb, "/WMode %d def%s", t.Choose(2), ws())
 	}
-	if t.Bool(1, 4) {
+	noCodespace := false
+	if len(others) > 0 && t.Bool(1, 2) {
+		// a CMap of the same file as parent (chains and forward references are
+		// legal); such derived CMaps often have no code space of their own
+		fmt.Fprintf(sb, "/%s usecmap%s", sim.Pick(t, others), ws())
+		noCodespace = t.Bool(2, 3)
+	} else if t.Bool(1, 4) {
 		fmt.Fprintf(sb, "/%s usecmap%s", []string{"Identity-H", "Base-0"}[t.Choose(2)], ws())
 	}
 	blocks := 1 + t.Small(8)
@@ -46,6 +52,9 @@ func genCMapBody(t *sim.Tape, name string, sb *strings.Builder) {
 			n = 100
 		}
 		kind := t.Choose(7)
+		if kind == 0 && noCodespace {
+			kind = 1
+		}
 		cl := 1 + t.Choose(4)
 		switch kind {
 		case 0:
@@ -106,13 +115,23 @@ func GenCMapFile(t *sim.Tape, ncmaps int) []byte {
 	sb.WriteString("/CIDInit /ProcSet findresource begin\n")
 	names := []string{"Test-H", "Alpha", "beta", "Zeta-V", "M0", "aaa", "", "A", "a", "B-", "0", "Alph", "~", "-"}
 	used := map[string]bool{}
+	var chosen []string
 	for i := 0; i < ncmaps; i++ {
 		name := sim.Pick(t, names)
 		for used[name] {
 			name += "x"
 		}
 		used[name] = true
-		genCMapBody(t, name, &sb)
+		chosen = append(chosen, name)
+	}
+	for i, name := range chosen {
+		var others []string
+		for j, o := range chosen {
+			if j != i && o != "" {
+				others = append(others, o)
+			}
+		}
+		genCMapBody(t, name, &sb, others)
 	}
 	sb.WriteString("end\n")
 	if t.Bool(1, 2) {
